@@ -200,7 +200,7 @@ func (c *checker) report(rn *runner, j job, mm []refeval.Mismatch, exp refeval.E
 	// DESIGN.md §9 #8: is this exactly "ScanReader emits one spurious empty line first"?
 	if min.p.Src.Kind == refeval.SrcScanReader && minRes.err == nil && !minRes.hung {
 		alt := refeval.EvalWith(min.p, refeval.EvalOpts{ScanReaderSpuriousEmptyLine: true})
-		if len(refeval.CheckRows(alt, minRes.out.Rows)) == 0 {
+		if len(refeval.Check(alt, minRes.out)) == 0 {
 			sig = "C01/ScanReader/spurious-empty-first-line"
 		}
 	}
